@@ -90,7 +90,7 @@ Definition init_family : family := [empty; empty; empty; empty].
 
 Definition get_h (f : family) (h : N) : wbmap N := nth (N.to_nat h) f empty.
 
-Fixpoint set_nth {A} (n : nat) (x : A) (l : list A) : list A :=
+Fixpoint set_nth {A} (n : nat) (x : A) (l : list A) {struct l} : list A :=
   match l with
   | [] => []
   | y :: tl => match n with O => x :: tl | S n' => y :: set_nth n' x tl end
